@@ -44,6 +44,9 @@ GapVariants == IF WithComments THEN WsGaps \o CommentGaps ELSE WsGaps
 LooseAt(t, i) == \/ t[i].g = "L"
                  \/ (t[i].g = "T" /\ t[i - 1].t = "p" /\ t[i - 1].s \in {"(", ","})
                  \/ (t[i].g = "T" /\ t[i].t = "p" /\ t[i].s \in {")", ","})
+                 \* the identifier after the dot of a segmented name is read with ScanIgnoreWhitespace:  db. rp . m  is not
+                 \* legal (the dot must follow its name directly) but  db. rp. m  is
+                 \/ (t[i].g = "T" /\ t[i].t = "id" /\ t[i - 1].t = "p" /\ t[i - 1].s = ".")
 Emit(k, s, b, toks, dev) == CSVWrite("%1$s", <<ToJson([kind |-> k, sub |-> s, toks |-> toks, want |-> b.a, dev |-> dev])>>, IOEnv.CASE_FILE)
 
 Variants(k, s, b) ==
